@@ -257,3 +257,34 @@ func Close(a, b interface{}, ulps float64) bool {
 }
 
 var _ = math32.Sqrt
+
+// Represents: can the element type hold the integer v exactly?
+func (d *DT) Represents(v int64) bool {
+	switch d.Class {
+	case CInt:
+		if d.Bits == 64 {
+			return true
+		}
+		lim := int64(1) << uint(d.Bits-1)
+		return v >= -lim && v < lim
+	case CUint:
+		if v < 0 {
+			return false
+		}
+		if d.Bits == 64 {
+			return true
+		}
+		return v < int64(1)<<uint(d.Bits)
+	case CFloat:
+		if d.Bits == 32 {
+			return v > -(1<<24) && v < (1<<24)
+		}
+		return v > -(1<<53) && v < (1<<53)
+	case CComplex:
+		if d.Bits == 64 {
+			return v > -(1<<24) && v < (1<<24)
+		}
+		return v > -(1<<53) && v < (1<<53)
+	}
+	return false
+}
